@@ -53,7 +53,7 @@ MORE = [
 def gen_case(rng, tier, index):
     cases = []
     for _ in range(BATCH[tier]):
-        g = gen_rewrite.Gen(rng, tier)
+        g = gen_rewrite.Gen(rng, tier, shared_blocks=True)
         g.module()
         g.edits()
         regs = {"x64": ["rax", "rbx", "rcx", "rdx", "rsi", "r8", "r12"],
